@@ -363,6 +363,52 @@ def r16_7(ctx):
     ctx.run_rule("R16.7", "decisions on input bytes are ASCII-only (spans never split a character)", body, floor=4)
 
 
+def r16_8(ctx):
+    """next() is total: the only way it can fail is a fallible decoding of input bytes, and each such
+    decoding is reached only after a tokenizer predicate accepted those bytes (today: the tag name
+    equals one of the ASCII raw-text element names, so the decoding cannot fail)."""
+    F = ctx.facts
+
+    def body(r):
+        cg = F.callgraph()
+        nx = F.method(TOK, "next")
+        reach = [F.fns[p] for p in sorted(cg.reachable([nx])) if p in F.fns and F.fns[p].file.startswith("src/html/")]
+        fallible = set()
+        sites = 0
+        for f in reach:
+            r.analysed(f)
+            dec = [(bi, t, cal) for bi, t, cal in f.calls() if cal is not None and not cal.local and cal.name in ("from_utf8", "from_utf16", "parse", "try_from", "try_into")]
+            # other foreign calls whose failure is propagated with `?`
+            s = None
+            for bi, t, cal in f.calls():
+                if cal is not None and cal.name == "branch" and (cal.def_trait or cal.trait or "").endswith("Try"):
+                    s = s or Sym(f, copies=True, max_paths=200000)
+            if s is not None:
+                for p in s.paths():
+                    for e in p.events:
+                        if e[0] == "call" and e[1].endswith("Try>::branch"):
+                            src = e[2][0]
+                            if src[0] == "call" and not src[1].startswith("html::"):
+                                fallible.add(src[1])
+            if not dec:
+                continue
+            s = s or Sym(f, copies=True, max_paths=200000)
+            for bi, t, cal in dec:
+                sites += 1
+                unguarded = 0
+                n = 0
+                for p in s.paths():
+                    if not any(e[0] == "call" and e[4] == bi for e in p.events):
+                        continue
+                    n += 1
+                    if not any(a[0] == "call" and a[1].startswith(TOK + "::") and v in (1, "Some") for a, v in p.conds if True) and not any(mentions(a, lambda x: x[0] == "call" and x[1].startswith(TOK + "::")) and v in (1, "Some") for a, v in p.conds):
+                        unguarded += 1
+                r.ob("totality:%s:%s-after-accepting-predicate" % (f.key, cal.name), n > 0 and unguarded == 0, f.loc(span_line(t["s"])),
+                     "%s of input bytes is reached only after a tokenizer predicate accepted them (%d paths, %d without)" % (cal.name, n, unguarded))
+        r.ob("totality:error-sources", fallible <= {"std::string::String::from_utf8"}, nx.site, "foreign failures propagated out of next(): %s" % sorted(fallible))
+    ctx.run_rule("R16.8", "next() cannot fail on arbitrary bytes", body, floor=1)
+
+
 def run(ctx):
     r16_7(ctx)
     r16_1(ctx)
@@ -384,3 +430,4 @@ def run(ctx):
         r.ob("recursion:tokenizer-bodies", len(nodes) >= 50, "", "%d tokenizer bodies searched for recursion" % len(nodes))
     ctx.run_rule("R16.5", "no recursion per input byte in the tokenizer", body, floor=1)
     r16_6(ctx)
+    r16_8(ctx)
